@@ -170,18 +170,26 @@ constexpr K sentinel_of() {
 // hundreds of thousands of resident entries). Their keys come from a compact recipe in the plan header instead of
 // explicit K lines, so plans stay small; such plans cannot be key-minimised, only replayed.
 inline bool scale_slot(const GenCtx &g) {
-#if defined(__SANITIZE_ADDRESS__) || defined(__SANITIZE_THREAD__)
+#if defined(__SANITIZE_THREAD__)
     (void) g;
-    return false; // plain flavour only: the sanitizers' slowdown and shadow memory make these runs too expensive
+    return false; // too expensive under ThreadSanitizer
 #else
+    // (under AddressSanitizer only the cheapest recipes are used, see set_scale_recipe)
     return g.profile.empty() && ((g.run_index >> 4) % 1536) == 2;
 #endif
 }
+#if defined(__SANITIZE_ADDRESS__)
+constexpr bool scale_cheap_only = true;
+#else
+constexpr bool scale_cheap_only = false;
+#endif
 
 /// recipe = "<kind> <n> <seed> <a> <b> <c>":
 ///   linear  n seed step jitter _      positions start + i*step + U[0,jitter]            (one long segment)
 ///   skewed  n seed head ap_step tail   head heavy-tailed keys, then an arithmetic progression, then tail heavy-tailed keys
 ///   walk    n seed gapbits _ _         heavy-tailed gaps below 2^gapbits                   (very many segments)
+///   convex  n seed gap0 delta grow     gaps changing by delta per step: tens of thousands of points in strictly convex
+///                                      (or concave) position inside one epsilon band, i.e. hulls beyond the builder's reserve
 template<typename K>
 bool keys_from_recipe(const PlanText &p, std::vector<K> &v) {
     if (!p.has("recipe")) return false;
@@ -203,6 +211,23 @@ bool keys_from_recipe(const PlanText &p, std::vector<K> &v) {
         for (size_t i = 0; i < head; ++i) { adv(1 + r.magnitude(20)); v.push_back(km.at(cur)); }
         for (size_t i = 0; i < ap; ++i) { adv(b); v.push_back(km.at(cur)); }
         for (size_t i = 0; i < tail; ++i) { adv(1 + r.magnitude(20)); v.push_back(km.at(cur)); }
+    } else if (t[0] == "convex") { // gaps change by `b` per step, smoothly: a = first gap, c = 0 shrinking / 1 growing gaps
+        // drawn from the recipe seed: an optional prefix of consecutive keys (ranks above epsilon before the curve starts)
+        // and up to three mild kinks (the gap changes by 0.5-8 % in the direction of the curvature), one of them early:
+        // the builder's tangent searches then advance while the hull is still growing
+        uint64_t gap = a;
+        size_t prefix = r.chance(500) ? (size_t) r.range(500, 5000) : 0;
+        size_t kink_at[3] = {n, n, n};
+        unsigned kinks = (unsigned) r.below(4), kink_pm[3] = {0, 0, 0};
+        for (unsigned k = 0; k < kinks; ++k) { kink_at[k] = k == 0 ? (size_t) r.range(1, 200) : (size_t) r.range(n / 4, n); kink_pm[k] = (unsigned) r.range(5, 80); }
+        for (size_t i = 0; i < prefix && i < n; ++i) { v.push_back(km.at(cur)); adv(1); }
+        if (prefix) adv(uint64_t(1) << r.range(20, 44));
+        for (size_t i = prefix, j = 0; i < n; ++i, ++j) {
+            v.push_back(km.at(cur));
+            adv(gap);
+            if (c) gap += b; else gap = gap > b + 1 ? gap - b : 1;
+            for (unsigned k = 0; k < kinks; ++k) if (j == kink_at[k]) gap = c ? gap + gap / 1000 * kink_pm[k] : std::max<uint64_t>(1, gap - gap / 1000 * kink_pm[k]);
+        }
     } else if (t[0] == "walk") {
         for (size_t i = 0; i < n; ++i) { adv(1 + r.magnitude((unsigned) a)); v.push_back(km.at(cur)); }
     } else return false;
@@ -417,13 +442,16 @@ std::string gen_keys_into(PlanText &p, size_t n, size_t eps, int chunks, Rng &cf
 
 /// Fills a plan with a scale-slot recipe suited to (key type, epsilon). Returns the motif signature.
 template<typename K>
-std::string set_scale_recipe(PlanText &p, size_t eps, Rng &cfg, Rng &work, bool allow_16m, bool float_slopes = false) {
+std::string set_scale_recipe(PlanText &p, size_t eps, Rng &cfg, Rng &work, bool allow_16m, bool float_slopes = false, bool convex_only = false) {
     gen::KeyMap<K> km;
     p.keys.clear();
     uint64_t seed = work.next() >> 1;
     unsigned kind = (unsigned) cfg.below(allow_16m ? 4 : 3);
     if (float_slopes && cfg.chance(500)) kind = 0; // single-precision slopes: the long segment is where their precision matters
     if (km.U < (uint64_t(1) << 36)) kind = 2; // small universes cannot hold millions of distinct keys: many-segments walk
+    if (sizeof(K) == 8 && (scale_cheap_only || convex_only || cfg.chance(250))) kind = 9; // smooth convex sequence
+    if (convex_only && sizeof(K) < 8) { p.set("scale", 0); return gen_keys_into<K>(p, (size_t) cfg.range(1, 3000), eps, 1, cfg, work); }
+    if (scale_cheap_only && sizeof(K) < 8) { p.set("scale", 0); return gen_keys_into<K>(p, (size_t) cfg.range(1, 3000), eps, 1, cfg, work); }
     std::string sig;
     if (kind == 0) {          // one segment spanning more than 2^23 positions (single construction thread)
         size_t n = (size_t) cfg.range(8450000, 9600000);
@@ -432,6 +460,17 @@ std::string set_scale_recipe(PlanText &p, size_t eps, Rng &cfg, Rng &work, bool 
         p.set("recipe", "linear " + std::to_string(n) + " " + std::to_string(seed) + " " + std::to_string(step) + " " + std::to_string(jitter) + " 0");
         p.set("procs", 1); p.set("maxthreads", 1);
         sig = "scale-linear+";
+    } else if (kind == 9) {   // more than 2^16 points in convex position within one band (the builder reserves 2^16 hull entries)
+        size_t n = (size_t) cfg.range(scale_cheap_only ? 90000 : 110000, scale_cheap_only ? 160000 : 400000);
+        bool grow = cfg.coin();
+        uint64_t delta = cfg.chance(700) ? 1 : cfg.range(1, 4);
+        uint64_t gap0 = (uint64_t(1) << cfg.range(26, 33)) + cfg.range(0, uint64_t(1) << 20); // the larger, the flatter: one band holds them all
+        p.set("recipe", "convex " + std::to_string(n) + " " + std::to_string(seed) + " " + std::to_string(gap0) + " " + std::to_string(delta) + " " + (grow ? "1" : "0"));
+        p.set("procs", 1); p.set("maxthreads", 1);
+        p.set("recipe_start", cfg.coin() ? cfg.range(0, 100000) : (uint64_t(1) << cfg.range(30, 60)) + cfg.range(0, 100000)); // near / far from the origin
+        p.set("qmax", 20000);
+        p.set("scale", 1);
+        return "scale-convex+";
     } else if (kind == 1) {   // skewed: many short segments, one covering most positions, many short segments again
         size_t head = (size_t) cfg.range(300000, 900000), ap = (size_t) cfg.range(2000000, 6000000), tail = (size_t) cfg.range(100000, 300000);
         p.set("recipe", "skewed " + std::to_string(head + ap + tail) + " " + std::to_string(seed) + " " + std::to_string(head) + " " + std::to_string(cfg.range(1, 50)) + " " + std::to_string(tail));
